@@ -37,6 +37,21 @@ class Ctx:
             raise AnalysisError("anchor vanished: class ExperimentLexer")
         return self.lexers["ExperimentLexer"]
 
+    @cached_property
+    def states(self):
+        """Lexer classes that are actually used as lexer states: the main lexer and everything it (transitively)
+        pushes or begins.  Abstract base classes that only carry shared rules are not states."""
+        seen, todo = [], [self.main.name]
+        while todo:
+            n = todo.pop()
+            if n in seen or n not in self.lexers:
+                continue
+            seen.append(n)
+            for r in self.lexers[n].rules:
+                if r.action:
+                    todo += [t.split(".")[-1] for t in r.action.pushes + r.action.begins]
+        return {n: self.lexers[n] for n in seen}
+
     def lexicon(self, name) -> Lexicon:
         cache = self.__dict__.setdefault("_lexicons", {})
         if name not in cache:
